@@ -1,6 +1,7 @@
 package props
 
 import (
+	"bytes"
 	"fmt"
 
 	"github.com/RoaringBitmap/roaring"
@@ -16,7 +17,7 @@ import (
 func init() {
 	register(&explore.Prop{
 		ID: "C03", Level: levelMC, Explorer: "E1 input-space enumerator",
-		Rule: "MERGE(k,K) sweep as C02 through the public Merge(...).WriteTo/DocumentNumbers API (default mode) and through the chunk-mode hook; oracle: one slice per input of the input's length, dropped => MaxInt64, survivors numbered 0,1,2.. in (segment, doc) order, Count == #survivors, and the `_id` stored value and `_id` term of every surviving old document are found at exactly the reported new number; " +
+		Rule: "MERGE(k,K) sweep, MERGE-LARGE and MERGE-ALIAS as C02 through the public Merge(...).WriteTo/DocumentNumbers API (default mode; the same Merger then writes a second time: same bytes, same mapping) and through the chunk-mode hook; oracle: one slice per input of the input's length, dropped => MaxInt64, survivors numbered 0,1,2.. in (segment, doc) order, Count == #survivors, and the `_id` stored value and `_id` term of every surviving old document are found at exactly the reported new number; " +
 			"distinct = distinct (configuration, segment list, bitmaps); non-trivial = as C02",
 		Assumptions: commonAssumptions, Budget: qBudget, Run: runC03,
 	})
@@ -99,7 +100,7 @@ func checkDocNums(c *explore.Ctx, scope string, idx int64, r *mergeRun, nums [][
 				bm, err := loaded.DocsMatchingTerms([]segment.Term{idTerm{"_id", id}})
 				if err != nil {
 					bmDesc = err.Error()
-				} else if bm.GetCardinality() != 1 || !bm.Contains(uint32(nn)) {
+				} else if (bm.GetCardinality() != 1 && !r.alias) || !bm.Contains(uint32(nn)) {
 					bmDesc = bm.String()
 				}
 			})
@@ -125,19 +126,36 @@ func runC03(c *explore.Ctx) {
 		c.Outcome(explore.Hash(fmt.Sprint(r.nums)))
 		checkDocNums(c, scope, idx, r, r.nums, r.loaded, cas)
 		// the public API path: Merge(...).WriteTo + DocumentNumbers (default chunk mode)
-		if r.cfg.Name == "prod" {
+		if r.cfg.Name == "prod" || r.alias {
 			var nums [][]uint64
 			var b []byte
 			var err error
+			var nums2 [][]uint64
+			var b2 []byte
+			var err2 error
 			msg := explore.Guard(func() {
 				m := ice.Merge(r.segs, r.drops, 4096)
 				var w sliceWriter
 				_, err = m.WriteTo(&w, nil)
 				b = w.b
 				nums = m.DocumentNumbers()
+				if err == nil {
+					// the same Merger asked to write again: same file, same mapping
+					keep := make([][]uint64, len(nums))
+					for i := range nums {
+						keep[i] = append([]uint64(nil), nums[i]...)
+					}
+					var w2 sliceWriter
+					_, err2 = m.WriteTo(&w2, nil)
+					b2, nums2, nums = w2.b, m.DocumentNumbers(), keep
+				}
 			})
 			if msg != "" || err != nil {
 				c.Violate(scope, idx, sigOf("C03", "public-merge", "error: "+errText(msg, err)), errText(msg, err), cas)
+				return
+			}
+			if err2 != nil || !bytes.Equal(b, b2) || fmt.Sprint(nums) != fmt.Sprint(nums2) {
+				c.Violate(scope, idx, "C03/second-WriteTo-differs", fmt.Sprintf("second WriteTo on the same Merger: err=%v bytes equal=%v mapping first=%v second=%v", err2, bytes.Equal(b, b2), nums, nums2), cas)
 				return
 			}
 			l, err := loadMem(b)
@@ -160,6 +178,7 @@ func runC03(c *explore.Ctx) {
 		mergeSweep(c, 4, 3, 1, mergeCfgsQuick[:1], check)
 	}
 	largeMerges(c, check)
+	aliasMerges(c, check)
 }
 
 type sliceWriter struct{ b []byte }
